@@ -112,6 +112,12 @@ def designs(ctx: Ctx, n: int):
         d = gen.gen_cdna(ctx.rng, {}) if i % 4 == 3 else gen.gen_sge(ctx.rng, {'p_bg': 0.35, 'bg_upstream': True, 'bg_kinds': ['snv', 'ins', 'del', 'del'],
                                                                                'allow_junction_pam': False, 'p_custom': 0.6,
                                                                                'non_cds_mut': ['snv', '1del', '2del0', '3del1', '5del3'], 'p_no_op': 0.6})
+        if d['mode'] == 'sge' and i % 6 == 1:
+            # the same design once more on a second contig: the reported counts of discarded oligonucleotides cover the whole run
+            d['extra_contigs'] = {}
+            d['clone_contig'] = 'chr2'
+            for f in d.get('vcfs') or []:
+                f['records'] = [r for r in f['records'] if r.get('contig', d['contig']) == d['contig']]
         t = d['targetons'][0]
         L = t['ref_end'] - t['ref_start'] + 1 + len(d['opts'].get('adaptor5') or '') + len(d['opts'].get('adaptor3') or '')
         m = ctx.rng.random()
